@@ -370,7 +370,12 @@ def _chunk_loop(run, PV, D, sdc, defaults):
              "expect_full_data has no default.")
     g = A.cfg(sdc, D)
     cs = find_calls(A, sdc, "_send_command")
-    run.require(len(cs) == 1, "_send_data_in_chunks: exactly one send expected in the chunk loop (idiom not understood)")
+    run.require(len(cs) >= 1, "_send_data_in_chunks: no send in the chunk loop (anchor vanished)")
+    run.check("R3", len(cs) == 1, "each chunk goes out in exactly one exchange", key="_send_data_in_chunks|send-sites", where=sdc.loc(cs[1]) if len(cs) > 1 else sdc.loc(),
+              message=f"_send_data_in_chunks has {len(cs)} exchange sites: a chunk that is sent again (a retry after a time-out, a second copy) reaches the device twice - "
+                      "the device has already consumed the first copy, so the bytes it assembles are no longer the client's")
+    if len(cs) != 1:
+        return
     c = cs[0]
     sns = g.nodes_of(c)
     run.require(len(sns) == 1 and sns[0].kind == "stmt" and isinstance(sns[0].ast, ast.Assign) and sns[0].ast.value is c
